@@ -263,6 +263,8 @@ def run_harness(mod, tier, seed, jobs=None):
 def finish(mod, acc, tier, seed, wall, nshards):
     """Write replays + evidence, print the verdict lines, return exit code."""
     prop = mod.ID
+    if hasattr(mod, 'finalize'):
+        mod.finalize(acc)
     known = load_known()
     rdir = os.path.join(VERIF, 'replays', prop)
     exit_code = 0
